@@ -109,6 +109,7 @@ type Gen struct {
 	heapSorts  map[string]Sort
 	heapRange  map[string][2]string // heaps of small integers: lo, hi of every cell
 	aliases    map[string]map[string]string // package path -> import alias -> imported path
+	direct     map[string]map[string]bool   // package path -> paths its source files import (a package loaded from export data lists every package its export data mentions)
 	heapCell   map[string]types.Type        // heap key -> Go type of one cell
 }
 
